@@ -10,6 +10,7 @@ def LOOP(k, header, kw, body):
     if "package_name" in body:
         inv += ("  files@.len() > 0 ==> package_name is Some,\n"
                 "  forall|i: int| 0 <= i < files@.len() ==> (package_name matches Some(n) && (#[trigger] files@[i]).ast.package.0@ == n@),\n")
+    inv += "  entry_once(files@, n0, entry_path), n0 == (if entry_ast0 is Some { 1int } else { 0int }), n0 <= files@.len(),\n"
     return inv + "decreases __pv@.len(),"
 
 
@@ -17,8 +18,8 @@ UNIT = Unit(
     name="U-LOADPKG",
     properties=["C16", "C13"],
     # read_gom_sources' sortedness is C13's clause; load_package's one-package clause is C16's
-    clause_scope={"C13": {"only": ["paths_sorted("]}, "C16": {"except": ["paths_sorted("]}},
-    rules=["attrs", "fmtmsg", "msg_to_string", "ok_or_else_q", "let_chain", "let_chain_rev", "opt_map"],
+    clause_scope={"C13": {"only": ["paths_sorted(", "entry_once("]}, "C16": {"except": ["paths_sorted(", "entry_once("]}},
+    rules=["attrs", "fmtmsg", "msg_to_string", "ok_or_else_q", "let_chain", "let_chain_rev", "opt_map", "opt_is_some_and"],
     describe="packages::load_package and separate::read_source_files: a package unit is ONE package — every file loaded into it (the entry file and every other .gom file of "
              "the directory) declares the unit's own package name; a file declaring another package is an error, never silently merged "
              "(its top-level items would otherwise be resolved under that other package's name); the unit's name is never the reserved `Builtin`",
@@ -52,7 +53,8 @@ UNIT = Unit(
                (re.compile(r"let src = fs::read_to_string\(&path\)\s*\.map_err\(\|err\| compile_error\(format!\([^;]*?\)\)\)\?;", re.S),
                 "let src = match fs_read_to_string(&path) { Ok(v) => v, Err(e) => { return Err(e); } };", 1),
                ("let ast = parse_ast_file(&path, &src)?;", "let ast = match parse_ast_file(&path, &src) { Ok(v) => v, Err(e) => { return Err(e); } };"),
-               ("if entry_path.is_some_and(|entry| entry == path) {", "if entry_is(entry_path, &path) {"),
+               (re.compile(r"\bentry\.file_name\(\) == path\.file_name\(\)"), "same_file_name(entry, &path)", "*"),
+               (re.compile(r"\|entry\| entry == path\b"), "|entry| path_eq(entry, &path)", "*"),
            ],
            rewrites=[("package_dir: &Path", "package_dir: &PathBuf"), ("entry_path: Option<&Path>", "entry_path: Option<&PathBuf>"), ("entry_ast: Option<ast::File>", "entry_ast: Option<AstFile>"),
                      ("let mut files = Vec::new();", "let mut files: Vec<SourceFileAst> = Vec::new();"),
@@ -60,7 +62,10 @@ UNIT = Unit(
                      (re.compile(r"&ast\.package\.0 != (\w+)"), r"string_ne(&ast.package.0, \1)", "*"),
                      (re.compile(r'\b(\w+) == "Builtin"'), r'str_eq_lit(&\1, "Builtin")', "*"),
                      (re.compile(r"\b((?:\w+\.)*)ast\.package\.0\.clone\(\)"), r"string_clone(&\1ast.package.0)", "*")],
-           contract="ensures r matches Ok(u) ==> one_package(u),\n        r matches Ok(u) ==> !reserved_package_name(u.name@),",
+           contract="ensures r matches Ok(u) ==> one_package(u),\n        r matches Ok(u) ==> !reserved_package_name(u.name@),\n"
+                    "        r matches Ok(u) ==> entry_once(u.files@, if entry_ast is Some { 1int } else { 0int }, entry_path),",
+           ghost=[("@entry", "", "let ghost entry_ast0 = entry_ast;"),
+                  ("let mut __pv = match read_gom_sources(package_dir)", "line-before", "let ghost n0 = files@.len() as int;")],
            loop_fn=LOOP),
         Fn(file="crates/compiler/src/pipeline/separate.rs", name="read_source_files", ret="r",
            rules=["attrs", "fmtmsg", "msg_to_string", ("strip", "hir::"), ("consume_into", ["paths"])],
